@@ -51,7 +51,11 @@ func LoadModuleFromStringWithOptions(source source.Opener, yang string, options 
 	if err != nil {
 		return nil, err
 	}
-	return m, meta.Compile(m)
+	// a module or an error: what did not compile is not handed out
+	if err := meta.Compile(m); err != nil {
+		return nil, err
+	}
+	return m, nil
 }
 
 type parser struct {
@@ -69,7 +73,11 @@ func LoadModuleWithOptions(source source.Opener, yangfile string, options Option
 	if err != nil {
 		return nil, fmt.Errorf("could not load yang file for '%s'. %w", yangfile, err)
 	}
-	return m, meta.Compile(m)
+	// a module or an error: what did not compile is not handed out
+	if err := meta.Compile(m); err != nil {
+		return nil, err
+	}
+	return m, nil
 }
 
 func (p *parser) parseModule(data string, parent *meta.Module, featureSet meta.FeatureSet, loader meta.Loader) (*meta.Module, error) {
@@ -93,6 +101,10 @@ func (p *parser) parseModule(data string, parent *meta.Module, featureSet meta.F
 
 func (p *parser) loadAndParseModule(parent *meta.Module, yangfile string, rev string, featureSet meta.FeatureSet, loader meta.Loader) (*meta.Module, error) {
 	// TODO: Use rev
+	if p.source == nil {
+		// a module given as text (LoadModuleFromString(nil, ..)) that imports or includes
+		return nil, fmt.Errorf("%s - nothing to open the file with", yangfile)
+	}
 	res, err := p.source(yangfile, ".yang")
 	if err != nil {
 		return nil, err
